@@ -304,8 +304,12 @@ def harness(cfg, ns, schedule_factory=None):
         s2 = r2.chance_alignments[0].of
         if cfg["sampler"] == "statistical":
             return [Obl("re-used sampler: samples come from the new ground truth", list(s2.annotators) == gt, rz)]
+        # the ground truth {a0, a2} is not a prefix of the annotators; its units are labelled 'x', the left-out annotator's 'y'
+        gt_labels = {info[(a, 0)]["label"] for a in (0, 2)}
         return [Obl("re-used sampler: as many sampled annotators as ground-truth annotators", len(s2.annotators) == 2, rz),
-                Obl("re-used sampler: uses the new ground truth", list(smp._ground_truth_annotators) == gt, rz)]
+                Obl("re-used sampler: uses the new ground truth", list(smp._ground_truth_annotators) == gt, rz),
+                Obl("shuffle sampler: every sampled annotator copies a ground-truth annotator (labels of the left-out annotator never appear)",
+                    all(u.annotation in gt_labels for _, u in s2), rz)]
 
     def identical(ctx):
         sizes = tuple(cfg["sizes"])
@@ -361,12 +365,15 @@ def replay(case):
         np.random.seed(5)
         smp.init_sampling(c)
         gt = [common.ANN[0], common.ANN[2]]
-        r2 = c.compute_gamma(d, n_samples=2, sampler=smp, ground_truth_annotators=gt)
+        r2 = c.compute_gamma(d, n_samples=12, sampler=smp, ground_truth_annotators=gt)
         bad = []
+        gt_labels = {u.annotation for a, u in c if a in gt}
         for A in r2.chance_alignments:
             anns = list(A.continuum.annotators)
             if (case["sampler"] == "statistical" and anns != gt) or len(anns) != 2:
                 bad.append(f"chance continuum annotators {anns} for ground truth {gt}")
+            if case["sampler"] != "statistical" and any(u.annotation not in gt_labels for _, u in A.continuum):
+                bad.append(f"a chance continuum holds units of an annotator outside the ground truth {gt}: labels {sorted({str(u.annotation) for _, u in A.continuum})}")
         return dict(reproduced=bool(bad), detail="; ".join(bad[:2]))
     if case["kind"] == "identical":
         c = pa.Continuum()
